@@ -322,6 +322,107 @@ Proof.
   rewrite Ht, app_nil_r. apply (q_run_order ops q_init).
 Qed.
 
+(** ---------------- reconnecting keeps the FIFO ---------------- *)
+
+Lemma q_fifo_from : forall st0 ops, q_queue st0 = [] -> q_sent st0 = [] ->
+  let st := q_run st0 ops in
+  q_sent st ++ q_queue st = q_sends ops
+  /\ q_sent (q_run st (repeat QTick (length (q_queue st)))) = q_sends ops.
+Proof.
+  intros st0 ops Hq Hs st.
+  pose proof (q_run_order ops st0) as Ho. rewrite Hq, Hs in Ho. cbn [app] in Ho. fold st in Ho.
+  split; [exact Ho|].
+  pose proof (q_run_ok ops st0 (or_introl Hq)) as Hok. fold st in Hok.
+  pose proof (q_drain (length (q_queue st)) st Hok eq_refl) as Hd.
+  pose proof (q_run_order (repeat QTick (length (q_queue st))) st) as Ho2.
+  rewrite Hd, app_nil_r in Ho2. rewrite Ho2.
+  assert (Ht : forall n, q_sends (repeat QTick n) = []) by (induction n; [reflexivity | exact IHn]).
+  rewrite Ht, app_nil_r. exact Ho.
+Qed.
+
+(** ---------------- CTCP messages round-trip ---------------- *)
+
+Lemma split_on_chunk : forall q rest cur, ~ In 1 q ->
+  split_on_aux 1 cur (q ++ 1 :: rest) = (cur ++ q) :: split_on_aux 1 [] rest.
+Proof.
+  induction q as [|c q IH]; intros rest cur H.
+  - cbn. rewrite app_nil_r. reflexivity.
+  - cbn [app split_on_aux]. destruct (N.eqb_spec c 1) as [->|n]; [exfalso; apply H; left; reflexivity|].
+    rewrite IH by (intros Hin; apply H; right; exact Hin). rewrite <- app_assoc. reflexivity.
+Qed.
+
+Definition wrapx (q : list N) : list N := 1 :: q ++ [1].
+
+Lemma split_on_wrapped : forall qs, Forall (fun q => ~ In 1 q) qs ->
+  split_on_aux 1 [] (flat_map wrapx qs) = flat_map (fun q => [[]; q]) qs ++ [[]].
+Proof.
+  induction qs as [|q qs IH]; intros H; [reflexivity|].
+  inversion H as [|? ? Hq Hqs]; subst.
+  cbn [flat_map]. unfold wrapx at 1. cbn [app split_on_aux]. change (1 =? 1) with true. cbn iota.
+  rewrite <- app_assoc. cbn [app]. rewrite split_on_chunk by exact Hq. rewrite (IH Hqs). reflexivity.
+Qed.
+
+Lemma alternate_wrapped : forall qs,
+  exists n, alternate false (flat_map (fun q => [[]; q]) qs ++ [[]]) = (n, qs) /\ filter nonempty n = [].
+Proof.
+  induction qs as [|q qs [n [E F]]].
+  - exists [[]]. split; reflexivity.
+  - exists ([] :: n). cbn [flat_map app alternate negb]. rewrite E. split; [reflexivity | exact F].
+Qed.
+
+Lemma xq_nonempty : forall c, xq c <> [].
+Proof. intros c. unfold xq. destruct (c =? 92); [discriminate|]. destruct (c =? 1); discriminate. Qed.
+
+Lemma ctcpQuote_nonempty : forall s, s <> [] -> nonempty (ctcpQuote s) = true.
+Proof.
+  intros [|c s] H; [contradiction|]. rewrite ctcpQuote_flat. cbn [flat_map].
+  pose proof (xq_nonempty c) as Hc. destruct (xq c); [contradiction | reflexivity].
+Qed.
+
+Lemma split_first_space_tag : forall tag cur, ~ In 32 tag ->
+  (forall rest, split_first_space cur (tag ++ 32 :: rest) = (cur ++ tag, Some rest))
+  /\ split_first_space cur tag = (cur ++ tag, None).
+Proof.
+  induction tag as [|c tag IH]; intros cur H.
+  - split; [intros rest|]; cbn; rewrite app_nil_r; reflexivity.
+  - assert (Hc : (c =? 32) = false) by (apply N.eqb_neq; intros ->; apply H; left; reflexivity).
+    assert (Ht : ~ In 32 tag) by (intros Hin; apply H; right; exact Hin).
+    destruct (IH (cur ++ [c]) Ht) as [I1 I2].
+    split; [intros rest|]; cbn [app split_first_space]; rewrite Hc, ?I1, ?I2, <- app_assoc; reflexivity.
+Qed.
+
+Definition xmsg_wf (m : xmsg) : Prop := ~ In 32 (fst m) /\ ctcp_body m <> [].
+
+Lemma extract_one : forall m, xmsg_wf m ->
+  split_first_space [] (ctcpDequote (ctcpQuote (ctcp_body m))) = ctcp_norm m.
+Proof.
+  intros [tag data] [Ht _]. cbn [fst] in Ht. rewrite ctcp_roundtrip. unfold ctcp_body, ctcp_norm. cbn [fst snd].
+  destruct (split_first_space_tag tag [] Ht) as [I1 I2].
+  destruct data as [[|d ds]|]; cbn [app]; rewrite ?I1, ?I2; reflexivity.
+Qed.
+
+Lemma ctcp_message_roundtrip : forall msgs, Forall xmsg_wf msgs ->
+  ctcp_extract (ctcp_stringify msgs) = (map ctcp_norm msgs, []).
+Proof.
+  intros msgs H. unfold ctcp_extract, ctcp_stringify.
+  set (qs := map (fun m => ctcpQuote (ctcp_body m)) msgs).
+  assert (Ef : flat_map (fun m => [1] ++ ctcpQuote (ctcp_body m) ++ [1]) msgs
+               = flat_map wrapx qs).
+  { unfold qs. clear H. induction msgs as [|m msgs IH]; [reflexivity|]. cbn [flat_map map]. rewrite IH. reflexivity. }
+  rewrite Ef.
+  assert (Hno : Forall (fun q => ~ In 1 q) qs).
+  { unfold qs. apply Forall_forall. intros q Hq. apply in_map_iff in Hq. destruct Hq as [m [<- _]].
+    intros Hin. exact (ctcpQuote_clean _ 1 Hin eq_refl). }
+  rewrite (split_on_wrapped qs Hno).
+  destruct (alternate_wrapped qs) as [n [E F]]. rewrite E, F. f_equal.
+  assert (Hne : filter nonempty qs = qs).
+  { unfold qs. clear Ef Hno E. induction H as [|m msgs [_ Hb] Hms IH]; [reflexivity|].
+    cbn [map filter]. rewrite (ctcpQuote_nonempty _ Hb), IH. reflexivity. }
+  rewrite Hne. unfold qs. rewrite map_map.
+  clear Ef Hno E Hne. induction H as [|m msgs Hm Hms IH]; [reflexivity|].
+  cbn [map]. rewrite (extract_one m Hm), IH. reflexivity.
+Qed.
+
 (** ---------------- the octet limit is false in general (F17) ---------------- *)
 
 Definition ex_msgType : list N := [80; 82; 73; 86; 77; 83; 71].     (* PRIVMSG *)
